@@ -68,7 +68,8 @@ func verifCheckPlaceholder(errs []*Error, s *yaml.Node, exempt bool) {
 func HarnessC03Skeleton() {
 	doc, sites := verifFullSkeletonSites()
 	site := sites.scalars[verifChoose("scalar", len(sites.scalars))]
-	site.node.Tag, site.node.Style = "!!str", 0
+	// the placeholder is written plain, in single quotes or in double quotes
+	site.node.Tag, site.node.Style = "!!str", []yaml.Style{0, yaml.SingleQuotedStyle, yaml.DoubleQuotedStyle}[verifChoose("style", 3)]
 	site.node.Value = verifBadExpr
 	verifPlace(doc, 1, 0)
 	errs := verifLintNode(doc, verifRules())
